@@ -73,6 +73,10 @@ std::string exponential_to_decimal_notation(jsoncons::string_view str)
                     state = format_number_state::fraction;
                     ++i;
                 }
+                else
+                {
+                    state = format_number_state::err; // not a number in decimal or exponential notation
+                }
                 break;
             case format_number_state::fraction:
                 if ((c >= '0' && c <= '9'))
@@ -85,6 +89,10 @@ std::string exponential_to_decimal_notation(jsoncons::string_view str)
                 {
                     state = format_number_state::exponent_sign;
                     ++i;
+                }
+                else
+                {
+                    state = format_number_state::err;
                 }
                 break;
             case format_number_state::exponent_sign:
@@ -110,11 +118,19 @@ std::string exponential_to_decimal_notation(jsoncons::string_view str)
                     exponent_str.push_back(c);
                     ++i;
                 }
+                else
+                {
+                    state = format_number_state::err;
+                }
                 break;
             case format_number_state::err:
                 i = str.size();
                 break;
         }
+    }
+    if (state == format_number_state::err)
+    {
+        return std::string(str); // left as it is
     }
 
     std::size_t exponent;
